@@ -4,7 +4,7 @@ CONSTANTS
   OptSet = {}
   MaxBackups = 0
   MaxDeletes = 0
-  MaxFaults = 0
+  MaxFaults = 1000000
   AllowCrash = FALSE
   AllowEmptyLeftover = FALSE
   CombinerClearsQueueOnFailedFlush = TRUE
